@@ -20,7 +20,10 @@ What is varied (the compiler sees genuine edits / options):
     code = 4*a + 2*b + d   a: constant in the main file (a odd -> the source lives in a second
                            directory: "switch between two sources with the same basename"),
                            b: constant in a required module, d: -DDVAL=<d>;  code >= 900: invalid C
-    cmd  = k               --cflags=-DK=<k>;  k >= 100 additionally --release (the generated C of these programs is the
+    cmd  = k + 1000*l      --cflags=-DK=<k>;  k >= 100 additionally --release;  l selects the directory in which the
+                           linker finds libk08.a (the program prints what that library returns): l = 0|1 via
+                           --ldflags=-L<dir>, l = 2 via the LDFLAGS environment variable - changes of LINK options only;
+                           k >= 100 additionally --release (the generated C of these programs is the
                            same with and without --release, so it is purely a change of the compiler command)
     cc   = w               the WORLD: w % 10 = the compiler behind the (constant) --cc wrapper (0 gcc, 1 clang),
                            (w // 10) % 10 = the version of a C header found through `## cincdir` (since 304728c its
@@ -32,6 +35,7 @@ What is varied (the compiler sees genuine edits / options):
 """
 import math
 import os
+import re
 import shutil
 import stat
 import subprocess
@@ -80,6 +84,9 @@ def main_source(slot, code, hdrd="."):
             "## cinclude '\"c08hdr.h\"'\n"
             "## cincdir '%s'\n"
             "## cinclude '\"c08hdrx.h\"'\n"
+            "## linklib 'k08'\n"
+            "## cemit 'int c08_libval(void);\\n'\n"
+            "local function c08_libval(): cint <cimport,nodecl> end\n"
             "local HV: cint <cimport,nodecl>\n"
             "local HX: cint <cimport,nodecl>\n"
             "## local d = DVAL or 0\n"
@@ -88,7 +95,7 @@ def main_source(slot, code, hdrd="."):
             "local CCID: cint <cimport,nodecl>\n"
             "local K: cint <cimport,nodecl>\n"
             "local MAINVAL <comptime> = %d\n"
-            "print('code', MAINVAL*4 + MODVAL*2 + #[d]#, 'K', K, 'cc', CCID + 10*HV + 100*HX)\n" % (slot, hdrd, bad, a))
+            "print('code', MAINVAL*4 + MODVAL*2 + #[d]#, 'K', K + 1000*c08_libval(), 'cc', CCID + 10*HV + 100*HX)\n" % (slot, hdrd, bad, a))
 
 
 def mod_source(code):
@@ -118,6 +125,15 @@ class Replayer:
         self.hdrxd = os.path.join(hdir, "hdrx")
         for d in (self.cache, self.outd, self.hdrd, self.hdrxd, os.path.join(hdir, "srcA"), os.path.join(hdir, "srcB")):
             os.makedirs(d)
+        self.libd = []
+        for v in range(3):                       # three builds of one static library: the link options choose
+            ld = os.path.join(hdir, "lib%d" % v)
+            os.makedirs(ld)
+            with open(os.path.join(ld, "k08.c"), "w") as f:
+                f.write("int c08_libval(void) { return %d; }\n" % v)
+            subprocess.run(["gcc", "-c", "k08.c", "-o", "k08.o"], cwd=ld, check=True)
+            subprocess.run(["ar", "rcs", "libk08.a", "k08.o"], cwd=ld, check=True)
+            self.libd.append(ld)
         self.wrapper = os.path.join(hdir, "mycc")
         self.cur_cc = None
         self.shift = 0            # whole seconds by which the directory has been aged so far
@@ -158,8 +174,11 @@ class Replayer:
         return (mtime_ns + self.shift * 10**9 - self.T0 * 10**9) // (10**9 // TPS)
 
     def args_of(self, s, cache, outp):
-        a = ["--verbose", "--cache-dir", cache, "--cc", self.wrapper, "--cflags=-DK=%d -I %s" % (s["cmd"], self.hdrxd), "-DDVAL=%d" % (s["code"] % 2)]
-        if s["cmd"] >= 100:
+        k, l = s["cmd"] % 1000, s["cmd"] // 1000
+        a = ["--verbose", "--cache-dir", cache, "--cc", self.wrapper, "--cflags=-DK=%d -I %s" % (k, self.hdrxd), "-DDVAL=%d" % (s["code"] % 2)]
+        if l < 2:
+            a += ["--ldflags=-L%s" % self.libd[l]]
+        if k >= 100:
             a += ["--release"]
         if s["nohead"]:
             a += ["-P", "nocheading"]
@@ -179,8 +198,11 @@ class Replayer:
         write_if_differs(os.path.join(self.hdrxd, "c08hdrx.h"), "#define HX %d\n" % (s["cc"] // 100))
         return sdir
 
-    def nelua(self, args, cwd, kill=False):
+    def nelua(self, args, cwd, kill=False, ldenv=None):
         env = dict(self.env)
+        env.pop("LDFLAGS", None)
+        if ldenv:
+            env["LDFLAGS"] = ldenv
         if kill:
             env["C08_KILL"] = "1"
         p = subprocess.run([self.interp, "-lnelua", os.path.join(self.repo, "nelua.lua")] + args, cwd=cwd, env=env,
@@ -211,7 +233,22 @@ class Replayer:
             binp = os.path.join(self.cache, "slot%d" % s["slot"])
         before = (self._stat(cfile), self._stat(binp))
         kill = s["k"] == "I"
-        rc, out, err = self.nelua(self.args_of(s, self.cache, outp), sdir, kill=kill)
+        ldenv = "-L%s" % self.libd[2] if s["cmd"] // 1000 == 2 else None
+        rc, out, err = self.nelua(self.args_of(s, self.cache, outp), sdir, kill=kill, ldenv=ldenv)
+        # tie fact: the command compile_binary executes is the command recorded in the heading of the C file
+        # (modulo the output path), so that "same heading => same command"
+        executed = [l for l in out.splitlines() if l.startswith(self.wrapper + " ")]
+        heading = None
+        try:
+            with open(cfile, errors="replace") as fh:
+                for _ in range(3):
+                    line = fh.readline()
+                    if line.startswith("/* Compile command: "):
+                        heading = line[len("/* Compile command: "):].rstrip()[:-3].rstrip()
+        except OSError:
+            pass
+        norm = lambda c: re.sub(r'-o "[^"]*"', "-o <OUT>", c)
+        cmd_covered = None if (not executed or heading is None or s["k"] == "C") else (norm(executed[0]) == norm(heading))
         after = (self._stat(cfile), self._stat(binp))
         slow = s.get("dur", 0) // TPS
         if slow and after[1] is not None and after[1] != before[1]:
@@ -237,7 +274,8 @@ class Replayer:
         outcome = self.outcome_of(prog_out, rc, kill, not b) if s["k"] != "C" else ("codeonly" if rc == 0 else "buildfail")
         cw = after[0] is not None and after[0] != before[0]
         bw = after[1] is not None and after[1] != before[1]
-        return {"g": g, "b": b, "outcome": outcome, "rc": rc,
+        return {"g": g, "b": b, "outcome": outcome, "rc": rc, "cmd_covered": cmd_covered,
+                "executed_cmd": executed[0] if executed else None, "heading_cmd": heading,
                 "cfile_written": cw, "bin_written": bw,
                 "tc": self.tick_of(after[0][0]) if cw else None,
                 "tb": self.tick_of(after[1][0]) if bw else None,
@@ -254,7 +292,8 @@ class Replayer:
         s2 = dict(s)
         s2["nocache"] = True
         outp = os.path.join(refdir, "o") if s["out"] is not None else None
-        rc, out, err = self.nelua(self.args_of(s2, os.path.join(refdir, "cache"), outp), sdir)
+        rc, out, err = self.nelua(self.args_of(s2, os.path.join(refdir, "cache"), outp), sdir,
+                                  ldenv="-L%s" % self.libd[2] if s["cmd"] // 1000 == 2 else None)
         prog_out = out
         if outp and rc == 0:
             try:
